@@ -38,7 +38,8 @@ ToSn(r) == [set   |-> ToSetRec(r.set),
             apods |-> [k \in 1..Len(r.apods) |-> [name |-> r.apods[k][1], imm |-> r.apods[k][2]]],
             apvcs |-> {r.apvcs[k] : k \in 1..Len(r.apvcs)},
             faults |-> [k \in 1..Len(r.faults) |-> [k |-> r.faults[k][1], kind |-> r.faults[k][2], applied |-> r.faults[k][3],
-                                                   die |-> r.faults[k][4], list |-> r.faults[k][5]]],
+                                                   die |-> r.faults[k][4], list |-> r.faults[k][5],
+                                                   evict |-> IF Len(r.faults[k]) >= 6 THEN r.faults[k][6] ELSE ""]],
             cacheIntact |-> r.cacheIntact]
 
 Sn    == ToSn(Recs[i].sn)
